@@ -8,8 +8,8 @@ package main
 // chains, not execution.
 
 import (
-	"go/ast"
 	"fmt"
+	"go/ast"
 	"go/constant"
 	"go/token"
 	"go/types"
@@ -324,8 +324,8 @@ type termEnv struct {
 	forceInline map[*ssa.Function]bool
 	// inside a constructor: loads of fields of the object under construction are forwarded
 	// to the terms already stored there
-	ctorAlloc ssa.Value
-	ctorInfo  *ctorInfo
+	ctorAlloc    ssa.Value
+	ctorInfo     *ctorInfo
 	valueHelpers bool // opt-in: also unfold unexported store-free helpers that make calls (see isValueHelper)
 }
 
@@ -1191,8 +1191,8 @@ type Path struct {
 	Ret     *ssa.Return
 	Blocks  []*ssa.BasicBlock
 	PhiBind map[*ssa.Phi]ssa.Value
-	Bind    map[ssa.Value]*Term // bindings in force when the path was emitted (parameters / results of unfolded callees)
-	Seq     []ssa.Instruction   // every instruction of the path in execution order, loads included (enumPathsInl only)
+	Bind    map[ssa.Value]*Term     // bindings in force when the path was emitted (parameters / results of unfolded callees)
+	Seq     []ssa.Instruction       // every instruction of the path in execution order, loads included (enumPathsInl only)
 	Src     map[ssa.Value]ssa.Value // unfolded callee parameter -> argument value, unfolded call -> returned value
 }
 
@@ -1531,8 +1531,8 @@ func enumPathsInl(e *termEnv, fn *ssa.Function, limit int, inl func(*ssa.Functio
 	complete = true
 	cur := &Path{PhiBind: map[*ssa.Phi]ssa.Value{}}
 	type ctx struct {
-		fn     *ssa.Function
-		onPath map[*ssa.BasicBlock]bool
+		fn      *ssa.Function
+		onPath  map[*ssa.BasicBlock]bool
 		kont    func(rets []*Term)
 		depth   int
 		parent  *ctx
